@@ -226,4 +226,24 @@ example := ext_udp_with_eih true demoE demoE_lawful .Aead2022Blake3Aes128Gcm .b3
 /-- no identity keys: nothing is appended -/
 theorem c02_udp_eih_chain_empty (C : Crypto) (key sp : Bytes) : SsUdp.withEih C key sp [] = [] := rfl
 
+/-- C02: the chain is one 16-byte block per identity key -/
+theorem c02_udp_eih_chain_length (C : Crypto) (hC : C.Lawful) (key sp : Bytes) : ∀ iks : List Bytes,
+    (SsUdp.withEih C key sp iks).length = 16 * iks.length
+  | [] => rfl
+  | [ipsk] => by simp [SsUdp.withEih, hC.aes_enc_len]
+  | ipsk :: next :: rest => by
+    have := c02_udp_eih_chain_length C hC key sp (next :: rest)
+    simp only [SsUdp.withEih, List.length_append, hC.aes_enc_len, this, List.length_cons]; omega
+
+/-- C06: the holder of the first identity key recovers, from the first block alone, the masked hash naming the next key in the chain -/
+theorem c06_udp_eih_first_hop (C : Crypto) (hC : C.Lawful) (key sp ipsk next : Bytes) (rest : List Bytes)
+    (hx : (xorBytes ((C.blake3Hash next).take 16) sp).length = 16) :
+    C.aesDec ipsk ((SsUdp.withEih C key sp (ipsk :: next :: rest)).take 16) = xorBytes ((C.blake3Hash next).take 16) sp := by
+  simp only [SsUdp.withEih]
+  generalize hb : xorBytes ((C.blake3Hash next).take 16) sp = b at hx ⊢
+  have hl := hC.aes_enc_len ipsk b
+  rw [List.take_append_of_le_length (by omega), List.take_of_length_le (by omega)]
+  exact hC.aes_dec_enc _ _ hx
+example := c06_udp_eih_first_hop Crypto.toy Crypto.toy_lawful [1] (List.replicate 16 3) [2] [4] [] (by simp [xorBytes, Crypto.toy_lawful.blake3h_len])
+
 end Octo.Ss2022AuxGen
